@@ -117,6 +117,7 @@ def finish(prop, tier, seed, level, results, meta, t_start):
     solver_s = 0.0
     twins_ok = twins_bad = 0
     incon = []
+    skipped_why = []
     for r in results:
         counts[r['status']] = counts.get(r['status'], 0) + 1
         for k, v in r.get('stats', {}).items():
@@ -136,6 +137,8 @@ def finish(prop, tier, seed, level, results, meta, t_start):
                 known_hits.setdefault(v['key'], []).append(v)
             else:
                 viols.append(v)
+        if r['status'] == 'skipped':
+            skipped_why.append({'id': r['id'], 'why': str(r.get('why'))[:300]})
         if r['status'] in ('timeout', 'error', 'harness', 'inconclusive') or r.get('inconclusive'):
             incon.append({'id': r['id'], 'status': r['status'], 'why': str(r.get('why', r.get('inconclusive')))[:600]})
     # replay files
@@ -166,6 +169,7 @@ def finish(prop, tier, seed, level, results, meta, t_start):
         'twins_detected': twins_ok,
         'twins_missed': twins_bad,
         'inconclusive': incon[:20],
+        'skipped_outside_bounds': skipped_why[:20],
         'known_findings_hit': {k: len(v) for k, v in known_hits.items()},
         'functions_encoded': meta.get('functions', []),
         'bounds': meta.get('bounds', ''),
